@@ -53,7 +53,7 @@ PROPS = {
              "thorough": [("WriterChain_quick", "WriterChain_quick.cfg", WC), ("WriterChain_thorough", "WriterChain_thorough.cfg", WC)]},
         dev=[("WriterChain_dev_F1", "WriterChain_dev_F1.cfg", WC, "OrderInv"), ("WriterChain_dev_flush", "WriterChain_dev_flush.cfg", WC, "OrderInv")],
         family="C01", drivers=["d1"],
-        passes={"quick": [("mix", 12, None), ("delay", 1, 40)], "thorough": [("mix", 100, None), ("delay", 2, 600)]},
+        passes={"quick": [("mix", 12, None), ("delay", 1, 40)], "thorough": [("mix", 40, None), ("delay", 2, 400)]},
         nontrivial=r'"ev":"CFrame".*"k":1,',
         rule="scenarios: 2-3 pipelined requests x answer plans (respond sizes around the 1 KiB buffer / chunked / raw writer parts x flush / unused writer / drop / panic) x {own thread each, one thread in arrival order} (family C01); distinct = distinct observable traces; non-trivial = at least two response frames reached the client",
     ),
@@ -62,7 +62,7 @@ PROPS = {
              "thorough": [("WriterChain_quick", "WriterChain_quick.cfg", WC), ("WriterChain_thorough", "WriterChain_thorough.cfg", WC)]},
         dev=[("WriterChain_dev_F5", "WriterChain_dev_F5.cfg", WC, "EveryoneFinishes")],
         family="C06", drivers=["d1", "d2"], d2={"quick": (60, 1), "thorough": (300, 2)},
-        passes={"quick": [("mix", 12, None), ("delay", 1, 40)], "thorough": [("mix", 100, None), ("delay", 2, 600)]},
+        passes={"quick": [("mix", 12, None), ("delay", 1, 40)], "thorough": [("mix", 40, None), ("delay", 2, 400)]},
         nontrivial=r'"how":"(drop|panic)"',
         rule="as C01; non-trivial = the execution contains a dropped or panicking handler",
     ),
@@ -212,7 +212,12 @@ def run_check(prop, tier, seed):
             else:
                 mex.append((x, evs))
         acc, div = mechtrace.validate_mech(mspec, mcfg, mex, os.path.join(wdir, "mech"), kind)
-        fidelity = {"mechanism_spec": mspec, "executions": len(mex), "accepted": acc, "divergences": div[:10],
+        walks = None
+        if kind == "queue":
+            walks = mechtrace.spec_walks(2000 if tier == "quick" else 20000, os.path.join(wdir, "walks"), seed)
+            log("[walk] %d TLC-generated behaviours of mech/MsgQueue stepped through the real code: %d conform, %d actions executed" % (
+                walks["behaviours_generated_by_tlc"], walks["conform"], walks["actions_executed_on_the_real_code"]))
+        fidelity = {"spec_to_impl_walks": walks, "mechanism_spec": mspec, "executions": len(mex), "accepted": acc, "divergences": div[:10],
                     "n_divergences": len(div), "unmappable": unmapped, "marker_events": sum(len(e) for _, e in mex)}
         log("[mech] %d/%d executions are behaviours of %s (%d marker events, %d divergences)" % (acc, len(mex), mspec, fidelity["marker_events"], len(div)))
     # 3b. second, hook-free path: the same scenarios over real TCP / UNIX sockets (ordinary build)
